@@ -262,11 +262,12 @@ fn obs_view<K: Kind, T: Val>(v: &TrieView<'_, K::P, T>, ok: bool) -> StepObs {
         values: v.values().map(|x| x.get()).collect(),
         has_left: v.left().is_some(),
         has_right: v.right().is_some(),
+        reborrow_same: true,
     }
 }
 
 fn lost() -> StepObs {
-    StepObs { ok: false, prefix: NO_EP, value: None, pv: None, entries: vec![], keys: vec![], values: vec![], has_left: false, has_right: false }
+    StepObs { ok: false, prefix: NO_EP, value: None, pv: None, entries: vec![], keys: vec![], values: vec![], has_left: false, has_right: false, reborrow_same: true }
 }
 
 fn run_view<'a, K: Kind, T: Val>(root: Option<TrieView<'a, K::P, T>>, nav: &[Nav]) -> (Vec<StepObs>, Option<TrieView<'a, K::P, T>>) {
@@ -308,9 +309,12 @@ fn obs_view_mut<K: Kind, T: Val>(v: &mut TrieViewMut<'_, K::P, T>, ok: bool) -> 
     let has_left = v.has_left();
     let has_right = v.has_right();
     let keys = (&*v).view().keys().map(|p| K::dec(p)).collect();
-    let entries = v.iter_mut().map(|(p, x)| it::<K, T>(p, x)).collect();
+    // the read-only re-borrow must show the very same position
+    let ro = obs_view::<K, T>(&(&*v).view(), ok);
+    let entries: Vec<Item> = v.iter_mut().map(|(p, x)| it::<K, T>(p, x)).collect();
     let values = v.values_mut().map(|x| x.get()).collect();
-    StepObs { ok, prefix, value, pv, entries, keys, values, has_left, has_right }
+    let reborrow_same = ro.prefix == prefix && ro.value == value && ro.pv == pv && ro.has_left == has_left && ro.has_right == has_right && ro.entries == entries;
+    StepObs { ok, prefix, value, pv, entries, keys, values, has_left, has_right, reborrow_same }
 }
 
 fn run_view_mut<'a, K: Kind, T: Val>(root: Option<TrieViewMut<'a, K::P, T>>, nav: &[Nav]) -> (Vec<StepObs>, Option<TrieViewMut<'a, K::P, T>>) {
